@@ -9,9 +9,11 @@ Open Scope string_scope.
 
 (* every method of this package that touches the shared object follows the lock discipline
    (Common/LockEv.disciplined: reads under a read or write lock, writes under the write lock,
-   every lock released, at most one self-locking call outside a critical section), and the
+   every lock released, at most one self-locking call outside a critical section), all of them
+   on the one lock "mutex", and the
    methods the model knows are all there *)
 Lemma locks_register_ok :
   all_disciplined lock_events_register = true /\ all_touch lock_events_register = true /\
+  all_one_lock "mutex" lock_events_register = true /\
   has_methods ["register.Namespaced.AddNamespace"; "register.Namespaced.Get"; "register.Namespaced.Register"; "register.Untyped.Clone"; "register.Untyped.Get"; "register.Untyped.Register"] lock_events_register = true.
 Proof. repeat split; vm_compute; reflexivity. Qed.
